@@ -57,6 +57,8 @@ type Scenario struct {
 	// ViaClient: the node reads the DA layer through its real DA client (da/jsonrpc), which sees only the
 	// text of a remote error.
 	ViaClient bool `json:"via_client,omitempty"`
+	// Prometheus: the node runs with instrumentation.prometheus = true (labelled collectors).
+	Prometheus bool `json:"prometheus,omitempty"`
 }
 
 func genOutcomes(t *rapid.T) []world.FetchOutcome {
@@ -109,6 +111,7 @@ func gen(t *rapid.T) Scenario {
 	sc.CustomPayload = rapid.IntRange(0, 2).Draw(t, "custompayload") == 0
 	sc.Backlog = rapid.IntRange(0, 5).Draw(t, "backlog") == 0
 	sc.ViaClient = rapid.IntRange(0, 2).Draw(t, "viaclient") == 0
+	sc.Prometheus = rapid.IntRange(0, 3).Draw(t, "prometheus") == 0
 	return sc
 }
 
@@ -212,6 +215,7 @@ func run(sc Scenario, dir string) world.Verdict {
 		o := c.Opts
 		o.DAStartHeight = sc.Start
 		o.ViaDAClient = sc.ViaClient
+		o.Prometheus = sc.Prometheus
 		cc := *c
 		cc.Opts = o
 		f, err := fw.NewFull(&cc, root+"/f", da)
@@ -410,6 +414,9 @@ func run(sc Scenario, dir string) world.Verdict {
 		}
 		if sc.Backlog {
 			ls = append(ls, "sync-backlog-full")
+		}
+		if sc.Prometheus {
+			ls = append(ls, "prometheus-metrics")
 		}
 		if sc.ViaClient {
 			ls = append(ls, "through-the-real-da-client")
